@@ -101,6 +101,9 @@ func blastMain(args mon.Args, prop string) {
 			"ipfix-workers": strconv.Itoa(workers), "netflow9-workers": strconv.Itoa(workers), "netflow5-workers": strconv.Itoa(workers), "sflow-workers": strconv.Itoa(workers),
 			"ipfix-udp-size": strconv.Itoa(udpSize), "netflow9-udp-size": strconv.Itoa(udpSize), "sflow-udp-size": strconv.Itoa(udpSize), "netflow5-udp-size": "1464",
 		}
+		if pi%2 == 1 {
+			conf["verbose"] = "true" // the per-datagram log lines of the workers are code that runs on every datagram, good or bad
+		}
 		mirrorOn := prop == "C01" && pi%2 == 1
 		var mirrorLn *net.UDPConn
 		if mirrorOn {
@@ -120,7 +123,7 @@ func blastMain(args mon.Args, prop string) {
 			}
 		}
 		writeConf(pdir, conf, sink.port)
-		desc := fmt.Sprintf("collector #%d workers=%d max-udp-size=%d mirror=%v", pi, workers, udpSize, mirrorOn)
+		desc := fmt.Sprintf("collector #%d workers=%d max-udp-size=%d mirror=%v verbose=%v", pi, workers, udpSize, mirrorOn, pi%2 == 1)
 		col, err := startCollector(bin, pdir, nil, nil, nil)
 		if err != nil {
 			run.HarnessError(err.Error())
@@ -554,7 +557,7 @@ func blastMain(args mon.Args, prop string) {
 	run.Set("collector_processes", nProc)
 	switch prop {
 	case "C01":
-		run.SetRule("end-to-end tier: the real binary on all four UDP ports, worker counts 1/4/32, max-udp-size 512/1500/9000, mirroring on in every second process; well-formed traffic mixed with 25% truncated, random, bit-flipped and length-poisoned datagrams; verdict = the process is alive, nothing panicked, and its counters show the datagrams were taken in. A further process (race-detector build, 32 workers) takes unchanged template re-announcements of 300 exporters mixed with data around 2 (thorough: 6) wall-clock second boundaries - cache entries carry their announcement time, so this everyday traffic reaches code no sub-second run reaches; it must survive and the race detector must see no unsynchronised access to a Go map from collector code (the pattern the runtime turns into 'fatal error: concurrent map writes')")
+		run.SetRule("end-to-end tier: the real binary on all four UDP ports, worker counts 1/4/32, max-udp-size 512/1500/9000, mirroring and verbose logging on in every second process; well-formed traffic mixed with 25% truncated, random, bit-flipped and length-poisoned datagrams; verdict = the process is alive, nothing panicked, and its counters show the datagrams were taken in. A further process (race-detector build, 32 workers) takes unchanged template re-announcements of 300 exporters mixed with data around 2 (thorough: 6) wall-clock second boundaries - cache entries carry their announcement time, so this everyday traffic reaches code no sub-second run reaches; it must survive and the race detector must see no unsynchronised access to a Go map from collector code (the pattern the runtime turns into 'fatal error: concurrent map writes')")
 	case "C12":
 		run.SetRule("end-to-end tier: the real binary (real run() loops, sockets, workers, producer, TCP sink), exporters 127.x.y.z, templates in force before data; every line at the sink must equal byte-for-byte the stand-alone decode of its datagram (this is where a change inside run(), e.g. handing over b instead of b[:n], becomes visible)")
 	case "C13":
